@@ -9,8 +9,9 @@
   C07.6 the export emits only the key packet, signatures, user id/attribute packets and subkeys; block label follows the class
 """
 import ast
+import re
 
-from sa.interp import Interp, Scenario, Sym, Const, Bytes, render
+from sa.interp import expand_bound, alpha, Interp, Scenario, Sym, Const, Bytes, render
 from sa.loader import AnalysisError, dotted
 from sa.cfg import CFG, calls_in
 from sa import families, tables, keyaction
@@ -57,8 +58,11 @@ def check_key_pubkey(rep, prog):
                   'the twin\'s key packet must be the public half derived from the private packet', where=g.where,
                   expected='self._key.pubkey()', found=k)
         ors = [e for e in s.events if e[0] == 'ior' and e[1].startswith('pub') or (e[0] == 'ior' and 'PGPKey()' in e[1])]
-        vals = sorted(set(e[2] for e in s.events if e[0] == 'ior'))
-        allowed = {'subkey.pubkey', 'copy.copy(uid)', 'copy.copy(sig)'}
+        vals = sorted(set(expand_bound(s, e[2]) for e in s.events if e[0] == 'ior'))
+        SUBKEY_TWINS = ('self.subkeys.items()[*]_1.pubkey', 'self.subkeys.values()[*].pubkey', 'self._children.items()[*]_1.pubkey',
+                        'self._children.values()[*].pubkey')
+        vals = ['<subkey>.pubkey' if v in SUBKEY_TWINS else v for v in vals]
+        allowed = {'<subkey>.pubkey', 'copy.copy(self._uids[*])', 'copy.copy(self._signatures[*])'}
         rep.check(bool(vals) and set(vals) <= allowed, 'C07.2', 'PGPKey.pubkey', 'attached: %s' % vals,
                   'only public twins of subkeys and copies of user ids / signatures may be attached to the public twin', where=g.where,
                   expected=sorted(allowed), found=vals)
@@ -180,8 +184,10 @@ def check_export(rep, prog):
                 else:
                     flat.append(it)
         walk(its)
-        srcs = sorted(set(it[1] for it in flat if it[0] == 'SYM'))
-        allowed = {'self._key.__bytearray__()', 'sig.__bytearray__()', 'uid._uid.__bytearray__()', 's.__bytearray__()', 'sk.__bytearray__()'}
+        srcs = sorted(set(expand_bound(s, it[1]) for it in flat if it[0] == 'SYM'))
+        allowed = {'self._key.__bytearray__()', 'self._signatures[*].__bytearray__()', 'self._uids[*]._uid.__bytearray__()',
+                   'self._uids[*]._signatures[*].__bytearray__()', 'self._children.values()[*].__bytearray__()',
+                   'self.subkeys.values()[*].__bytearray__()'}
         rep.check(set(srcs) <= allowed and all(it[0] == 'SYM' for it in flat), 'C07.6', 'PGPKey.__bytearray__', 'emits %s' % srcs,
                   'a key export consists of the key packet, signatures, user id/attribute packets and subkeys only', where=f.where,
                   expected=sorted(allowed), found=srcs)
